@@ -26,6 +26,29 @@ def ensure_tuple(value: str | tuple[str, ...]) -> tuple[str, ...]:
     return value
 
 
+def _describe(value: Any, depth: int = 0) -> str:
+    """Text standing for a captured value (or a bound receiver) in a definition hash.
+
+    ``repr`` of a plain object or of a function ends in a memory address, which
+    says nothing about the value and is reused once the object is garbage
+    collected - two different objects could then hash alike. Plain objects are
+    described by their type and attributes instead, functions by their own
+    definition hash.
+    """
+    if depth < 3:
+        if inspect.isfunction(value) or inspect.ismethod(value):
+            return f"<callable {hash_definition(value) if depth < 2 else getattr(value, '__qualname__', '?')}>"
+        if type(value).__repr__ is object.__repr__:
+            state = getattr(value, "__dict__", None)
+            if state is not None:
+                items = ", ".join(f"{k!r}: {_describe(v, depth + 1)}" for k, v in state.items())
+                return f"<{type(value).__module__}.{type(value).__qualname__} {{{items}}}>"
+    try:
+        return repr(value)
+    except Exception:
+        return f"<unreprable {type(value).__qualname__}>"
+
+
 def _hash_bound_receiver(h: Any, func: Callable) -> None:
     """Fold the object a bound method is bound to into the hash.
 
@@ -35,10 +58,7 @@ def _hash_bound_receiver(h: Any, func: Callable) -> None:
     receiver = getattr(func, "__self__", None)
     if receiver is None or inspect.ismodule(receiver):
         return
-    try:
-        h.update(repr(receiver).encode())
-    except Exception:
-        h.update(f"<receiver:{id(receiver)}>".encode())
+    h.update(_describe(receiver).encode())
 
 
 def hash_definition(func: Callable) -> str:
@@ -75,7 +95,7 @@ def hash_definition(func: Callable) -> str:
             h.update(repr(getattr(func, "__kwdefaults__", None)).encode())
             for cell in closure:
                 try:
-                    h.update(repr(cell.cell_contents).encode())
+                    h.update(_describe(cell.cell_contents).encode())
                 except ValueError:
                     h.update(b"<empty_cell>")
         _hash_bound_receiver(h, func)
@@ -100,7 +120,7 @@ def hash_definition(func: Callable) -> str:
         if closure:
             for cell in closure:
                 try:
-                    h.update(repr(cell.cell_contents).encode())
+                    h.update(_describe(cell.cell_contents).encode())
                 except ValueError:
                     h.update(b"<empty_cell>")
 
